@@ -155,9 +155,47 @@ func isZeroValue(v ssa.Value) bool {
 
 // resultsOf describes (value operands, error operand) of a return in a function whose last result is error.
 func (c *Ctx) RuleErrZero(fns []*ssa.Function) {
+	// "a zero result" is what the caller of the package gets: the exported functions and methods, and every function
+	// of the module whose results one of them hands on unchanged (`return unmarshalText(…)`). An unexported helper
+	// that gives back its argument next to an error (`trimPrefix(in) (in, err)`) returns to code that discards it.
+	checked := map[*ssa.Function]bool{}
+	var work []*ssa.Function
+	for _, fn := range fns {
+		exported := fn.Object() != nil && fn.Object().Exported()
+		if fn.Object() == nil { // closures, instantiations: decided by what encloses / originates them
+			exported = false
+		}
+		if exported {
+			checked[origin(fn)] = true
+			work = append(work, origin(fn))
+		}
+	}
+	for len(work) > 0 {
+		fn := work[len(work)-1]
+		work = work[:len(work)-1]
+		for _, b := range fn.Blocks {
+			ret, ok := b.Instrs[len(b.Instrs)-1].(*ssa.Return)
+			if !ok {
+				continue
+			}
+			results := ReturnValues(ret)
+			if len(results) == 0 || !passThrough(results) {
+				continue
+			}
+			if call, ok := results[0].(*ssa.Extract).Tuple.(*ssa.Call); ok {
+				if g := c.StaticCallee(&call.Call); g != nil && inRepo(g) && !checked[origin(g)] {
+					checked[origin(g)] = true
+					work = append(work, origin(g))
+				}
+			}
+		}
+	}
 	for _, fn := range fns {
 		sig := fn.Signature
 		if sig.Results().Len() < 2 || !isErrorType(sig.Results().At(sig.Results().Len()-1).Type()) {
+			continue
+		}
+		if !checked[origin(fn)] {
 			continue
 		}
 		for _, b := range fn.Blocks {
